@@ -75,6 +75,10 @@ CHECKS = {
    technique="TLC enumerates operation template x operand value x provenance chain and builds each script (AnkoProvenance.tla); outcomes observed on the real VM are validated by TLC against the law Outcome(T[c(v)]) = Outcome(T[v])",
    text="Every provenance hop (slice element, map entry, script call, Go call returning interface{}, parentheses, ternary, ??) is specified as the identity on values; the product of ~130 operation templates (every operator position, index/slice/len/in, call/spread/member/deref, loops, switch, conditions, make sizes, channel operations, delete, throw, assignment targets, defer/go) x 16 operand values x all chains up to length 2 (3) is enumerated by TLC and each instantiated script must yield the same canonical value, dynamic type and error-or-success as with the bare variable.",
    note="Trusted: the canonical printing of outcomes (pointers followed, addresses masked, maps sorted); the bare-variable outcome is the reference, so an operation that is wrong for every provenance alike is not this property's business. One excluded combination (element assignment on a string through a non-assignable operand)."),
+ "C10": dict(level="model_checking", design="5 (C10), 3.8",
+   technique="TLC trace validation (Trace_AnkoContainers.tla) of recorded histories of container statements against AnkoContainers.tla (Go slice-header/backing-array, map, typed-store and struct-field rules; capacity growth nondeterministic)",
+   text="The specification keeps the heap of backing arrays and slice headers explicitly, so aliasing, writes through shared storage, appends within and beyond capacity and 3-index capacity limits are part of the state; each recorded statement's result and the whole projection after it (contents, len, cap, storage sharing measured through data pointers, map contents, fields) must be a step the specification allows, with errors leaving everything unchanged.",
+   note="Trusted: TLC; the harness' projection through reflection (data pointers for sharing). Bounds: seeded random histories (400x30 quick, 6000x40 thorough) over 7 variables, ~26 operation kinds; points the statement leaves open end the judged part of a history. Strings are covered only through C20/C05 templates."),
 # <<ADD>>
 }
 
